@@ -84,3 +84,75 @@ if __name__ == "__main__":
             continue
         seen.add(k)
         print(json.dumps(v, default=str)[:900])
+
+
+# ---------------------------------------------------------------------------------------------
+def check_c05(seed, tier):
+    """framing: every admissible count / length of the variable records, with the records that follow them compared
+    field by field (radiometric data after the attitude record, transformations after the facility records,
+    root text-record attributes after the file pointers); trailer reader for 0..7 low-resolution images."""
+    rng = random.Random(seed + 5)
+    viol, evals, distinct, samples = [], 0, set(), []
+    atts = list(range(1, 137)) if tier != "quick" else sorted({1, 2, 135, 136} | {rng.randint(3, 134) for _ in range(6)})
+    for n_att in atts:
+        cfg = random_cfg(rng, tier, n_att=n_att, level="1.5", images=[("HH", None)], n_lines=1, n_pixels=1, blank_prob=0.0,
+                         att_len=rng.choice([16384, 16 + 120 * n_att, 16 + 120 * n_att + rng.randint(1, 500)]))
+        diffs, key, prod = check_product(cfg, None, ("root", "leader"))
+        evals += 1
+        distinct.add(("att", n_att, cfg["att_len"], cfg["n_chan"], tuple(cfg["facility_lens"]), cfg["mapproj"], cfg["n_fileptr"]))
+        if diffs:
+            viol.append({"case": {"cfg": cfg}, "what": "; ".join(diffs[:3])[:500], "key": key or classify(diffs[0])})
+    for n_chan in range(1, 17):
+        for mp in (None, "UTM"):
+            cfg = random_cfg(rng, tier, n_chan=n_chan, mapproj=mp, level="1.5", images=[("HH", None)], n_lines=1, n_pixels=1, n_att=rng.choice([1, 3, 136]), blank_prob=0.0)
+            diffs, key, prod = check_product(cfg, None, ("root", "leader"))
+            evals += 1
+            distinct.add(("chan", n_chan, mp, tuple(cfg["facility_lens"]), cfg["n_fileptr"]))
+            if diffs:
+                viol.append({"case": {"cfg": cfg}, "what": "; ".join(diffs[:3])[:500], "key": key or classify(diffs[0])})
+    for fl in ([66, 67, 68, 100, 511] if tier == "quick" else list(range(66, 140)) + [1000, 5000, 99999]):
+        cfg = random_cfg(rng, tier, facility_lens=[fl, rng.choice([66, fl]), fl + 1, 66], level="1.5", images=[("HH", None)], n_lines=1, n_pixels=1, n_att=2, blank_prob=0.0)
+        diffs, key, prod = check_product(cfg, None, ("root", "leader"))
+        evals += 1
+        distinct.add(("fac", fl))
+        if diffs:
+            viol.append({"case": {"cfg": cfg}, "what": "; ".join(diffs[:3])[:500], "key": key or classify(diffs[0])})
+    for k in range(0, 12):
+        cfg = random_cfg(rng, tier, n_fileptr=k, level="1.1", images=[("HH", None)], n_lines=1, n_pixels=1, n_att=1, blank_prob=0.0)
+        diffs, key, prod = check_product(cfg, "/", ("root",))
+        evals += 1
+        distinct.add(("fp", k))
+        if diffs:
+            viol.append({"case": {"cfg": cfg}, "what": "; ".join(diffs[:3])[:500], "key": key})
+    # trailer reader
+    import io
+    import struct
+
+    import synth
+    from ceos_alos2.sar_trailer import read_sar_trailer
+    lay, req = products.spec()
+    for k in range(0, 8):
+        shapes = [(rng.randint(1, 4), rng.randint(1, 3), rng.choice([1, 2, 4])) for _ in range(k)]
+        ov = {"number_of_low_resolution_images": k}
+        datas = []
+        for i, (px, ln, nb) in enumerate(shapes):
+            vals = [rng.randint(-(2 ** (8 * nb - 1)), 2 ** (8 * nb - 1) - 1) for _ in range(px * ln)]
+            datas.append((vals, b"".join(v.to_bytes(nb, "big", signed=True) for v in vals)))
+            ov[f"low_resolution_image_sizes[{i}].record_length"] = len(datas[-1][1])
+            ov[f"low_resolution_image_sizes[{i}].number_of_pixels"] = px
+            ov[f"low_resolution_image_sizes[{i}].number_of_lines"] = ln
+            ov[f"low_resolution_image_sizes[{i}].number_of_bytes_per_one_sample"] = nb
+        hb, _, _ = synth.Builder(rng, overrides=ov, required=req.get("trailer_file_descriptor", {})).build(lay["trailer_file_descriptor"])
+        blob = hb.ljust(720, b" ") + b"".join(d for _, d in datas)
+        evals += 1
+        distinct.add(("trl", k))
+        try:
+            header, images = read_sar_trailer(io.BytesIO(blob))
+            ok = len(images) == k and all(im.shape == (px, ln) and im.ravel().tolist() == vals
+                                          for im, (px, ln, nb), (vals, _) in zip(images, shapes, datas))
+            if not ok:
+                viol.append({"case": {"trailer_images": k, "shapes": shapes}, "what": "low-resolution images differ from the bytes written"})
+        except Exception as e:  # noqa: BLE001
+            viol.append({"case": {"trailer_images": k, "shapes": shapes}, "what": f"read_sar_trailer raised {type(e).__name__}: {e}"[:200], "key": common.failure_site(e)})
+    samples.append({"attitude_counts": atts[:5], "note": "each case compares every /metadata node and the root attributes with the synthesised values"})
+    return {"name": "oracle:C05 record framing", "evaluations": evals, "distinct": len(distinct), "violations": viol, "samples": samples}
